@@ -249,12 +249,61 @@ def run(report, p):
         "(version.parse, int(), json decoding, indexing of the response) are applied to package constants only, never to state the thread filled from the network",
         1,
     )
-    main_reach = p.reachable([cb.qual for cb in callbacks], stop=set(runs))
+    main_roots = [cb.qual for cb in callbacks]
+    # properties of the checker that a callback reads run on the main thread too (an attribute access, not a call)
+    for cb in callbacks:
+        for n in walk_no_nested(cb.node):
+            if isinstance(n, ast.Attribute) and _is_updater_expr(p, n.value, cb, ucs):
+                for uc in ucs:
+                    m = p.classes[uc].methods.get(n.attr)
+                    if m is not None and m.is_property and m.qual not in main_roots:
+                        main_roots.append(m.qual)
+    main_reach = p.reachable(main_roots, stop=set(runs))
     pr = prov(p)
+    from sa.flow import subterms as _subterms
+
+    thread_fields = set()
+    for uc in ucs:
+        for rq in runs:
+            for q in p.reachable([rq]):
+                f2 = p.funcs.get(q)
+                if f2 is None or f2.cls != uc:
+                    continue
+                for n in walk_no_nested(f2.node):
+                    if isinstance(n, (ast.Assign, ast.AugAssign, ast.AnnAssign)):
+                        for t in (n.targets if isinstance(n, ast.Assign) else [n.target]):
+                            if isinstance(t, ast.Attribute) and isinstance(t.value, ast.Name) and t.value.id == "self":
+                                thread_fields.add(t.attr)
     for fq in sorted(main_reach):
         f = p.funcs[fq]
         if f.cls not in ucs:
             continue
+        # indexing / unpacking of something computed from what the thread stored: an IndexError / KeyError on the main thread
+        gm = cfg_of(f)
+        for n in walk_no_nested(f.node):
+            if isinstance(n, ast.Subscript) and isinstance(n.ctx, ast.Load) and not isinstance(n.slice, ast.Slice):
+                derived = False
+                for o in pr.origins(n.value, f):
+                    for sub in _subterms(o):
+                        if sub[0] == "attr" and sub[2] in thread_fields:
+                            derived = True
+                if not derived:
+                    continue
+                r6.instance(f, n, f"main-thread indexing {norm(n)[:60]}")
+                nn = gm.node_for(n)
+                vtxt = norm(n.value)
+                guarded = any(t.kind == "test" and gm.dominates(t, nn) and (norm(t.ast) in (vtxt, f"len({vtxt}) > 0", f"len({vtxt}) != 0") ) and any((m is nn or gm.dominates(m, nn)) for m, l in t.succ if l == "T") for t in gm.nodes)
+                # expression-level guards:  xs[0] if xs else d   /   xs and xs[0]
+                x, par = n, parent(n)
+                while par is not None and not isinstance(par, ast.stmt):
+                    if isinstance(par, ast.IfExp) and x is par.body and norm(par.test) in (vtxt, f"len({vtxt}) > 0", f"len({vtxt}) != 0"):
+                        guarded = True
+                    if isinstance(par, ast.IfExp) and x is par.orelse and norm(par.test) in (f"not {vtxt}", f"len({vtxt}) == 0"):
+                        guarded = True
+                    if isinstance(par, ast.BoolOp) and isinstance(par.op, ast.And) and any(norm(v) == vtxt for v in par.values[: par.values.index(x)] if x in par.values):
+                        guarded = True
+                    x, par = par, parent(par)
+                r6.check(guarded, f, n, f"`{norm(n)[:60]}` runs on the main thread (the result callback reads `{f.name}`) on a value computed from `{sorted(thread_fields)}`, which the checker thread filled from the server's answer: for some answers (a version with more or fewer components, an equal prefix) it is empty or shorter and the IndexError / KeyError replaces the command's exit code", construct=f"main-thread indexing of server-derived data: {norm(n)[:50]}")
         for call, tg in p.calls[fq]:
             risky = any(t.endswith(("version.parse", "version.Version")) or t in ("builtin:int", "builtin:float") or t.endswith(("json.loads",)) or t.startswith("extm:requests") for t in tg)
             if not risky:
